@@ -16,8 +16,8 @@ HEADER = BASE_HEADER          # gen() appends the stream table (Definition S<i> 
 RULE = ("seeded generator. TCP: ~30 byte streams (HTTP requests with/without Host, host:port and IPv6 Hosts, absolute-URI, 5000-byte header "
         "line, 300 KB header block beyond the 256 KiB limit, malformed/lower-case/3-letter-only requests; TLS ClientHellos with/without SNI, "
         "record length field shortened/lengthened/zero, 0x17 records, two records, the suite's own capture; garbage, 0/1/2-byte streams) x "
-        "scripts (whole, all 2-way and 3-way splits of the first bytes exhaustively for five streams, a deadline/EOF/reset error at every "
-        "position of the first 64 bytes with and without accompanying data, zero-length reads, 150 consecutive empty reads, random chunkings) "
+        "scripts (whole, all 2-way splits of the first 64 bytes and all 3-way splits of the first 13 (thorough: 64) bytes for five streams, a "
+        "deadline/EOF/reset error at every position of the first 48 (thorough: 64) bytes with and without accompanying data, zero-length reads, 150 consecutive empty reads, random chunkings) "
         "x request addresses (v4, [v6], domain, without port) and a failing SetReadDeadline. UDP: QUIC v1/v2 Initials sealed by the harness's "
         "own RFC 9001 implementation (1-4 byte packet numbers, tokens, 0..20-byte connection IDs, CRYPTO frames in order/reversed/overlapping/"
         "gapped/duplicated/>12 frames, PING/PADDING, lying frame lengths, wrong keys, Length field too short/long, coalesced trailing bytes, "
@@ -584,7 +584,7 @@ LEVEL_TEXT = ("Machine-checked Coq theorems over a statement-by-statement Gallin
               "position), every consumer read pattern and every library answer, replay ++ unread = sent; the address is the old one or "
               "join(Host/SNI, old port); the caller's datagram buffer is never written; Check's filter; no slice/index/make of the QUIC and "
               "TLS-length code can panic for any byte string. The model is tied to /repo on every run by a differential run of the Go code "
-              "against the model on ~6000 cases (vm_compute in the kernel), the library oracles' answers being computed independently in the harness.")
+              "against the model on ~4000 cases in the quick tier, ~53000 in the thorough tier (vm_compute in the kernel), the library oracles' answers being computed independently in the harness.")
 LEVEL_NOTE = ("Trusted: Coq kernel + vm_compute; hand-written model (tie is sampled differential testing + regenerated Params); python/Go glue. "
               "No axioms. Not proved: the parsers/crypto themselves (oracles); bufio's first read >= 3 bytes is a hypothesis of tcp_transparent.")
 TECHNIQUE = "Coq proof (invariants over read scripts and a buffer heap) on a hand-written model + differential correspondence check in vm_compute"
